@@ -17,8 +17,8 @@ func init() {
 	Registry["C12"] = c12
 	Metas["C12"] = Meta{Level: "other", NeedCG: true,
 		Technique: "static analysis: must-send-exactly-once path check on hook listeners, blocking-send reachability from the consensus goroutine over the VTA call graph, lock-order graph, finite-domain decision tables of the timeout staleness tests, must-schedule dominance",
-		Explain: "Liveness (termination under fair schedules) is not statically decidable here; decided instead are the structural ways this node can wedge itself. (R1) every hook listener that owes a reply sends exactly once on the event's ResCh on every path, the reply channels have capacity >= 1, and default listeners are installed when no application hooked; (R2) no blocking channel send on the consensus goroutine's own input queues is reachable (without `go`) from handleMsg/handleTimeout, and the ticker routine never blocks outside its select; (R3) the lock-order graph over the named mutexes reachable from the consensus and gossip routines is acyclic; (R4) the staleness decision tables of handleTimeout (27 states), timeoutRoutine (81 states) and CompareHRS (27 states) equal their specifications, exhaustively; handleTimeout dispatches each step to the right transition; (R5) every wait step schedules its own timeout on all paths and the height epilogue schedules round 0. (R6) defaultSetProposal rejects a proposal for its POLRound exactly outside {-1} ∪ [0, Round). (R7) round timeouts evaluate to (base+delta*round) ms for sample configurations (symbolic evaluation of the return expression); (R8) the vote gossip serves every lag (0, 1, >=2) of a peer. NOT decided: termination, fairness, gossip completeness.",
-		Assume: []string{"Go runtime scheduling is fair", "time.Timer fires"},
+		Explain:   "Liveness (termination under fair schedules) is not statically decidable here; decided instead are the structural ways this node can wedge itself. (R1) every hook listener that owes a reply sends exactly once on the event's ResCh on every path, the reply channels have capacity >= 1, and default listeners are installed when no application hooked; (R2) no blocking channel send on the consensus goroutine's own input queues is reachable (without `go`) from handleMsg/handleTimeout, and the ticker routine never blocks outside its select; (R3) the lock-order graph over the named mutexes reachable from the consensus and gossip routines is acyclic; (R4) the staleness decision tables of handleTimeout (27 states), timeoutRoutine (81 states) and CompareHRS (27 states) equal their specifications, exhaustively; handleTimeout dispatches each step to the right transition; (R5) every wait step schedules its own timeout on all paths and the height epilogue schedules round 0. (R6) defaultSetProposal rejects a proposal for its POLRound exactly outside {-1} ∪ [0, Round). (R7) round timeouts evaluate to (base+delta*round) ms for sample configurations (symbolic evaluation of the return expression); (R8) the vote gossip serves every lag (0, 1, >=2) of a peer. NOT decided: termination, fairness, gossip completeness.",
+		Assume:    []string{"Go runtime scheduling is fair", "time.Timer fires"},
 	}
 }
 
@@ -34,6 +34,7 @@ func c12(c *Ctx) {
 	c12R9(c)
 	noSendUnderConsensusLock(c, "R10")
 	setRoundRule(c, "R11")
+	c12R12(c)
 	shared(c, "C07", c07R4)
 	shared(c, "C03", c03R3, c03R5)
 }
@@ -463,7 +464,6 @@ func c12R6(c *Ctx) {
 	})
 	c.R.Ob(rule, "accept⇒POLRound-in-window", ok, c.Pos(ver), fname(f), "the signature check is reached exactly for POLRound == -1 or 0 <= POLRound < Round (POLRound 0 included: a polka in round 0 is the common case); "+why)
 }
-
 
 // c12R7: round timeouts grow with the round (a slow proposer is eventually waited for).
 func c12R7(c *Ctx) {
